@@ -772,8 +772,15 @@ def reader_reads(model, fref, in_index=1, version=None, inline=True, _depth=0):
                 attr = cx.self_attr(base)
                 if attr is None:
                     continue
-            src = source_accesses(cx, ev.value, IN)
-            reads.append(Read(attr, cx.norm(ev.value), src, non_gate_guards(ev), ev.loops, ev, fref.qname))
+            val = ev.value
+            if val[0] == "ifexp":
+                # x = A if test else B   ==   if test: x = A  else: x = B
+                for branch, pol in ((val[2], True), (val[3], False)):
+                    src = source_accesses(cx, branch, IN)
+                    reads.append(Read(attr, cx.norm(branch), src, non_gate_guards(ev) + [(val[1], pol)], ev.loops, ev, fref.qname))
+                continue
+            src = source_accesses(cx, val, IN)
+            reads.append(Read(attr, cx.norm(val), src, non_gate_guards(ev), ev.loops, ev, fref.qname))
         elif ev.kind == "call":
             f = ev.value[1]
             if f == ("global", "setattr") and len(ev.value[2]) == 3 and cx.is_self(ev.value[2][0]):
@@ -785,3 +792,72 @@ def reader_reads(model, fref, in_index=1, version=None, inline=True, _depth=0):
                     sub = FuncRef(lk[0].module, lk[0], lk[1])
                     reads.extend(reader_reads(model, sub, in_index, version, inline, _depth + 1))
     return reads
+
+
+# ---------------------------------------------------------------------------------------------------------
+# canonical guards / small folding (so that equivalent spellings of a condition compare equal)
+# ---------------------------------------------------------------------------------------------------------
+_POS = {"not in": "in", "is not": "is", "!=": "=="}
+
+
+def canon_guard(g):
+    """(test, polarity) with negations stripped and negative comparison operators turned positive"""
+    t, pol = T.strip_not(g[0], g[1])
+    if t[0] == "cmp" and len(t[1]) == 1 and t[1][0] in _POS:
+        t = ("cmp", (_POS[t[1][0]],), t[2])
+        pol = not pol
+    if t[0] == "cmp" and len(t[1]) == 1 and t[1][0] in ("==", "is"):
+        # symmetric operators: order the operands
+        a, b = t[2]
+        if T.show(b) < T.show(a):
+            t = ("cmp", t[1], (b, a))
+    return (t, pol)
+
+
+def canon_guards(guards, drop_exc=True):
+    return frozenset(canon_guard(g) for g in guards if not (drop_exc and g[0][0] == "exc"))
+
+
+def has_guard(ev, test, pol):
+    """the event is guarded by ``test`` with polarity ``pol`` (modulo spelling)"""
+    return canon_guard((test, pol)) in canon_guards(ev.guards)
+
+
+def fold_small(t):
+    """constant value of small arithmetic terms: -4, -len('.rpm'), len('images-') ...; None if not constant"""
+    if t is None:
+        return None
+    if t[0] == "const":
+        return t[1]
+    if t[0] == "unary" and t[1] == "-":
+        v = fold_small(t[2])
+        return -v if isinstance(v, (int, float)) else None
+    if t[0] == "call" and t[1] == ("global", "len") and len(t[2]) == 1:
+        v = fold_small(t[2][0])
+        return len(v) if isinstance(v, (str, list, tuple)) else None
+    if t[0] == "binop" and t[1] in ("+", "-"):
+        a, b = fold_small(t[2]), fold_small(t[3])
+        if isinstance(a, (int, float)) and isinstance(b, (int, float)):
+            return a + b if t[1] == "+" else a - b
+        if isinstance(a, str) and isinstance(b, str) and t[1] == "+":
+            return a + b
+    return None
+
+
+def own_guards(cx, ev):
+    """guards of an event that are real conditions of it, i.e. not merely the negation of an earlier early exit
+    (``if bad: raise`` / ``if done: return`` / ``continue``) in the same block"""
+    out = []
+    exits = [e for e in cx.events if e.kind in ("raise", "return", "continue", "break")]
+    for i, g in enumerate(ev.guards):
+        if g[0][0] == "exc":
+            continue
+        neg = (g[0], not g[1])
+        early = False
+        for e in exits:
+            if e.seq < ev.seq and len(e.guards) > i and tuple(e.guards[:i]) == tuple(ev.guards[:i]) and e.guards[i] == neg:
+                early = True
+                break
+        if not early:
+            out.append(g)
+    return out
